@@ -4,7 +4,7 @@ if confirmed, stores it as /verif/seeded/<name>/ (patch.diff, demo_test.go, READ
 import json, os, shutil, subprocess, sys
 prop, name = sys.argv[1], sys.argv[2]
 pkg = sys.argv[3] if len(sys.argv) > 3 else "."
-src = "/tmp/seed/%s/OUT" % prop
+src = os.environ.get("SEED_ROOT", "/tmp/seed") + "/%s/OUT" % prop
 r = subprocess.run(["python3", "/verif/tools/verify_seed.py", src, pkg], capture_output=True, text=True)
 print(r.stdout[-1500:])
 res = json.loads(r.stdout)
